@@ -618,6 +618,16 @@ func checkEncodeAll(p *Program, r *Report) {
 				if c, ok := bo.Y.(*ssa.Call); ok && calleeIs(c, "(reflect.Value).Len") {
 					okBound = true
 				}
+				// ... or through a one-line accessor of a wrapper record around the reflected slice (es.len())
+				if c, ok := bo.Y.(*ssa.Call); ok && !okBound {
+					if h := calleeOf(c); h != nil && pkgPathOf(h) == arrayPath && len(h.Blocks) == 1 {
+						if ret, ok := lastInstr(h.Blocks[0]).(*ssa.Return); ok && len(ret.Results) == 1 {
+							if c2, ok := ret.Results[0].(*ssa.Call); ok && calleeIs(c2, "(reflect.Value).Len") {
+								okBound = true
+							}
+						}
+					}
+				}
 			}
 		}
 		if !okBound {
